@@ -117,7 +117,7 @@ fn cases(quick: bool) -> Vec<Case> {
     // hex at [u8; n]
     for n in (0..=33usize).chain([64]) {
         let ty = Ty::arr(Ty::U(8), n);
-        let bytes: Vec<u8> = (0..n).map(|i| 0xf1u8.wrapping_sub(i as u8 * 7)).collect();
+        let bytes: Vec<u8> = (0..n).map(|i| 0xf1u8.wrapping_sub((i as u8).wrapping_mul(7))).collect();
         let hex: String = bytes.iter().map(|b| format!("{b:02x}")).collect();
         if n > 0 {
             for d in decorate(&hex, true) {
